@@ -22,6 +22,76 @@ use cameleon_device::u3v::verif::{VerifPoll, VerifUsb};
 use cameleon_device::u3v::{BusSpeed, ControlIfaceInfo, Device, DeviceInfo, LibUsbError, ReceiveIfaceInfo};
 
 // ---------------------------------------------------------------------------------------------
+// Lifetime of the memory the USB stack owns
+// ---------------------------------------------------------------------------------------------
+//
+// Every submitted transfer registers the address range of its buffer (hook `submit_bulk_at`) until
+// its completion has been reported to the pool.  The global allocator of this binary checks every
+// deallocation against the registered ranges: freeing a buffer while a transfer on it is still
+// outstanding (e.g. the payload buffer dropped before the `AsyncPool`) is what, with libusb, lets
+// the reap write into freed heap.  Lock-free and allocation-free, so it is safe inside `dealloc`.
+
+use std::sync::atomic::{AtomicUsize, Ordering};
+
+const REG_SLOTS: usize = 256;
+static REG_START: [AtomicUsize; REG_SLOTS] = [const { AtomicUsize::new(0) }; REG_SLOTS];
+static REG_LEN: [AtomicUsize; REG_SLOTS] = [const { AtomicUsize::new(0) }; REG_SLOTS];
+static FREED_WHILE_OUTSTANDING: AtomicUsize = AtomicUsize::new(0);
+
+fn reg_insert(start: usize, len: usize) -> Option<usize> {
+    if len == 0 {
+        return None;
+    }
+    for i in 0..REG_SLOTS {
+        if REG_LEN[i].compare_exchange(0, len, Ordering::SeqCst, Ordering::SeqCst).is_ok() {
+            REG_START[i].store(start, Ordering::SeqCst);
+            return Some(i);
+        }
+    }
+    None
+}
+
+fn reg_remove(slot: Option<usize>) {
+    if let Some(i) = slot {
+        REG_START[i].store(0, Ordering::SeqCst);
+        REG_LEN[i].store(0, Ordering::SeqCst);
+    }
+}
+
+fn reg_clear() {
+    for i in 0..REG_SLOTS {
+        reg_remove(Some(i));
+    }
+}
+
+struct WatchingAlloc;
+
+unsafe impl std::alloc::GlobalAlloc for WatchingAlloc {
+    unsafe fn alloc(&self, l: std::alloc::Layout) -> *mut u8 {
+        std::alloc::System.alloc(l)
+    }
+    unsafe fn dealloc(&self, p: *mut u8, l: std::alloc::Layout) {
+        let (a, n) = (p as usize, l.size());
+        for i in 0..REG_SLOTS {
+            let len = REG_LEN[i].load(Ordering::Relaxed);
+            if len != 0 {
+                let start = REG_START[i].load(Ordering::Relaxed);
+                if start != 0 && start < a + n && a < start + len {
+                    FREED_WHILE_OUTSTANDING.fetch_add(1, Ordering::SeqCst);
+                }
+            }
+        }
+        std::alloc::System.dealloc(p, l)
+    }
+    unsafe fn realloc(&self, p: *mut u8, l: std::alloc::Layout, new: usize) -> *mut u8 {
+        std::alloc::System.realloc(p, l, new)
+    }
+}
+
+#[global_allocator]
+static GLOBAL: WatchingAlloc = WatchingAlloc;
+
+// ---------------------------------------------------------------------------------------------
 // Turnstile
 // ---------------------------------------------------------------------------------------------
 
@@ -189,6 +259,8 @@ struct Tag {
 
 struct XferSt {
     len: usize,
+    /// slot of the buffer's address range in the registry of memory the USB stack owns
+    reg: Option<usize>,
     cancelled: bool,
     /// polls that still return Pending before the completion of the cancelled transfer is reported
     late_left: u64,
@@ -213,6 +285,12 @@ struct FakeState {
     /// `late_max` polls late (how many exactly: seeded per transfer)
     late_max: u64,
     late_seed: u64,
+    poll_err_at: HashMap<usize, Cls>,
+    poll_err_forever_at: Option<(usize, Cls)>,
+    /// every `Disc` fault is reported as NO_DEVICE (an unplugged device), not alternately NOT_FOUND
+    disc_is_nodevice: bool,
+    /// set by the harness once a hang has been recorded: everything completes so that threads end
+    release_all: bool,
 }
 
 impl FakeState {
@@ -262,7 +340,11 @@ impl VerifUsb for FakeUsb {
         Ok(0)
     }
 
-    fn submit_bulk(&self, _ep: u8, len: usize) -> Result<u64, LibUsbError> {
+    fn submit_bulk(&self, ep: u8, len: usize) -> Result<u64, LibUsbError> {
+        self.submit_bulk_at(ep, std::ptr::null(), len)
+    }
+
+    fn submit_bulk_at(&self, _ep: u8, buffer: *const u8, len: usize) -> Result<u64, LibUsbError> {
         let sched = self.sched();
         sched.yield_at(LOOP);
         let mut st = self.st.lock().unwrap();
@@ -275,7 +357,8 @@ impl VerifUsb for FakeUsb {
         }
         let id = st.next_id;
         st.next_id += 1;
-        st.xfers.insert(id, XferSt { len, cancelled: false, late_left: 0 });
+        let reg = if buffer.is_null() { None } else { reg_insert(buffer as usize, len) };
+        st.xfers.insert(id, XferSt { len, reg, cancelled: false, late_left: 0 });
         st.order.push_back(id);
         sched.log(LOOP, format!("S{},{}", id - st.base_id, len));
         Ok(id)
@@ -290,10 +373,26 @@ impl VerifUsb for FakeUsb {
         if st.order.front() != Some(&id) {
             st.protocol_errors.push(format!("poll of transfer {rel} which is not the oldest outstanding one"));
         }
+        // persistent failure of the event loop (known finding): every poll fails
+        if !st.release_all {
+            if let Some((at, cls)) = st.poll_err_forever_at {
+                if st.consumed >= at {
+                    sched.log(LOOP, format!("PX{rel},{}", cls.name()));
+                    return VerifPoll::Error(cls.lib(at as u64));
+                }
+            }
+        }
+        let release_all = st.release_all;
+        let late_seed = st.late_seed;
         let cancelled = match st.xfers.get_mut(&id) {
             Some(x) => {
-                if x.cancelled && x.late_left > 0 {
+                if x.cancelled && x.late_left > 0 && !release_all {
                     x.late_left -= 1;
+                    // the completion is not there yet: the poll times out, or the event loop fails
+                    if Rng::new(late_seed ^ id.wrapping_mul(77) ^ x.late_left).chance(1, 3) {
+                        sched.log(LOOP, format!("PX{rel},io"));
+                        return VerifPoll::Error(LibUsbError::Interrupted);
+                    }
                     sched.log(LOOP, format!("PL{rel}"));
                     return VerifPoll::Pending;
                 }
@@ -306,18 +405,35 @@ impl VerifUsb for FakeUsb {
             }
         };
         if cancelled {
-            st.xfers.remove(&id);
+            let x = st.xfers.remove(&id);
+            reg_remove(x.and_then(|x| x.reg));
             st.order.retain(|x| *x != id);
+            // a transfer that had already FAILED when it was cancelled (device unplugged, bus error on
+            // several transfers) is reaped with its own error status, not with CANCELLED
+            let idx = st.consumed;
+            if !release_all {
+                if let Some(Item::Fault(cls)) = st.script.get(idx).cloned() {
+                    st.consumed += 1;
+                    sched.log(LOOP, format!("PE{rel},{}", cls.name()));
+                    let e = if cls == Cls::Disc && st.disc_is_nodevice { LibUsbError::NoDevice } else { cls.lib(idx as u64) };
+                    return VerifPoll::Completed(Err(e));
+                }
+            }
             sched.log(LOOP, format!("PC{rel}"));
             return VerifPoll::Completed(Err(LibUsbError::Timeout));
         }
         let idx = st.consumed;
+        if let Some(cls) = st.poll_err_at.remove(&idx) {
+            sched.log(LOOP, format!("PX{rel},{}", cls.name()));
+            return VerifPoll::Error(cls.lib(idx as u64));
+        }
         if idx >= st.script.len() || st.pend_at.remove(&idx) {
             sched.log(LOOP, format!("PP{rel}"));
             return VerifPoll::Pending;
         }
         st.consumed += 1;
-        st.xfers.remove(&id);
+        let x = st.xfers.remove(&id);
+        reg_remove(x.and_then(|x| x.reg));
         st.order.retain(|x| *x != id);
         match st.script[idx].clone() {
             Item::Data(d) => {
@@ -327,7 +443,8 @@ impl VerifUsb for FakeUsb {
             }
             Item::Fault(cls) => {
                 sched.log(LOOP, format!("PE{rel},{}", cls.name()));
-                VerifPoll::Completed(Err(cls.lib(idx as u64)))
+                let e = if cls == Cls::Disc && st.disc_is_nodevice { LibUsbError::NoDevice } else { cls.lib(idx as u64) };
+                VerifPoll::Completed(Err(e))
             }
         }
     }
@@ -602,6 +719,16 @@ struct Plan {
     start_again_at: Option<usize>,
     /// completions of cancelled transfers are reported up to that many polls late
     late_cancel: u64,
+    /// wall-clock patience of the scheduler
+    watchdog: Duration,
+    /// the event loop fails once (`VerifPoll::Error`) when the transfer that would receive this script
+    /// item is polled
+    poll_err_at: Vec<(usize, Cls)>,
+    /// from this script item on the event loop fails on EVERY poll (known finding: `AsyncPool::drop`
+    /// then spins forever)
+    poll_err_forever_at: Option<(usize, Cls)>,
+    /// `Disc` faults are NO_DEVICE (unplugged device / whole frame lost with NO_DEVICE)
+    disc_is_nodevice: bool,
 }
 
 /// What survives a session: the scripted endpoint, the device and (unless dropped) the handle.
@@ -609,6 +736,8 @@ struct Ctx {
     fake: Arc<FakeUsb>,
     _dev: Device,
     strm: Option<StreamHandle>,
+    /// payloads kept from the previous session on this handle, with the length of their buffer
+    foreign: Vec<(Payload, usize)>,
 }
 
 fn new_ctx() -> Ctx {
@@ -629,6 +758,10 @@ fn new_ctx() -> Ctx {
             loop_threads: vec![],
             late_max: 0,
             late_seed: 0,
+            poll_err_at: HashMap::new(),
+            poll_err_forever_at: None,
+            disc_is_nodevice: false,
+            release_all: false,
         }),
     });
     let dev = Device::verif_new(
@@ -639,7 +772,7 @@ fn new_ctx() -> Ctx {
         device_info(),
     );
     let strm = StreamHandle::verif_new(&dev).expect("stream handle").expect("stream iface");
-    Ctx { fake, _dev: dev, strm: Some(strm) }
+    Ctx { fake, _dev: dev, strm: Some(strm), foreign: vec![] }
 }
 
 #[derive(Clone, Debug)]
@@ -674,6 +807,10 @@ struct Outcome {
     lock_free_after: bool,
     /// result of the `start_streaming_loop` issued while the loop was running
     start_again: Option<String>,
+    /// deallocations that hit the buffer of a transfer the USB stack still owned
+    freed_while_outstanding: usize,
+    /// payloads the receiver still held at the end (carried into a restart session)
+    kept: Vec<Payload>,
 }
 
 fn info_string(p: &Payload) -> String {
@@ -699,7 +836,13 @@ fn cls_of(e: &StreamError) -> &'static str {
     }
 }
 
-fn rx_thread(sched: Arc<Sched>, receiver: PayloadReceiver, b: RxBehaviour, seed: u64) -> RxReport {
+fn rx_thread(
+    sched: Arc<Sched>,
+    receiver: PayloadReceiver,
+    b: RxBehaviour,
+    seed: u64,
+    mut foreign: Vec<(Payload, usize)>,
+) -> (RxReport, Vec<Payload>) {
     let mut rng = Rng::new(seed ^ 0x5151);
     let mut rep = RxReport::default();
     let mut receiver = Some(receiver);
@@ -719,12 +862,26 @@ fn rx_thread(sched: Arc<Sched>, receiver: PayloadReceiver, b: RxBehaviour, seed:
         let drain = sched.m.lock().unwrap().drain;
         let want_close = receiver.is_some() && !drain && b.close_after.map_or(false, |n| actions >= n);
         actions += 1;
+        // hand back a payload this loop never produced (kept from the previous session on the same
+        // handle, whose layout was different): a buffer of a foreign size enters the send-back channel
+        if receiver.is_some() && !foreign.is_empty() && !want_close && rng.chance(1, 3) {
+            let (p, full_len) = foreign.pop().unwrap();
+            receiver.as_ref().unwrap().send_back(p);
+            sched.log(RX, format!("RF{full_len}"));
+            continue;
+        }
         if want_close {
             receiver = None;
             sched.log(RX, "RX".into());
             continue;
         }
-        let release = !held.is_empty()
+        // (in the final drain nothing is released: what the receiver still holds is carried into a
+        // restart session and handed back there as a buffer of a foreign size)
+        if drain && receiver.is_none() {
+            break;
+        }
+        let release = !drain
+            && !held.is_empty()
             && (receiver.is_none() || held.len() > b.hold_max || rng.chance(b.release_pct, 100));
         if release {
             let i = rng.below(held.len() as u64) as usize;
@@ -774,7 +931,7 @@ fn rx_thread(sched: Arc<Sched>, receiver: PayloadReceiver, b: RxBehaviour, seed:
         }
     }
     sched.finish(RX);
-    rep
+    (rep, held.into_iter().map(|(_, p, _, _)| p).collect())
 }
 
 fn device_info() -> DeviceInfo {
@@ -793,7 +950,17 @@ fn device_info() -> DeviceInfo {
     }
 }
 
+/// wall-clock patience of the scheduler (a verdict based on it is re-checked once with ten times more)
 const WATCHDOG: Duration = Duration::from_secs(3);
+/// One session never schedules more events / takes longer than this, whatever the implementation does.
+const SESSION_EVENT_BUDGET: usize = 100_000;
+const SESSION_TIME_BUDGET: Duration = Duration::from_secs(60);
+/// Wall-clock budget of a whole run (per tier); when it is exhausted no further session is started and
+/// the run reports what it found so far plus a `run-budget-exhausted` violation.
+const RUN_BUDGET_QUICK: Duration = Duration::from_secs(8 * 60);
+const RUN_BUDGET_THOROUGH: Duration = Duration::from_secs(40 * 60);
+static RUN_T0: std::sync::OnceLock<(Instant, Duration)> = std::sync::OnceLock::new();
+static RUN_BUDGET_HIT: std::sync::atomic::AtomicBool = std::sync::atomic::AtomicBool::new(false);
 
 fn run_session(plan: &Plan, mut ctx: Ctx) -> (Outcome, Option<Ctx>) {
     let sched = Sched::new();
@@ -805,15 +972,21 @@ fn run_session(plan: &Plan, mut ctx: Ctx) -> (Outcome, Option<Ctx>) {
         st.consumed = 0;
         st.base_id = st.next_id;
         st.xfers.clear();
+        reg_clear();
         st.order.clear();
         st.pend_at = plan.pend_at.iter().copied().collect();
         st.submit_fail = plan.submit_fail.iter().copied().collect();
         st.submits = 0;
         st.late_max = plan.late_cancel;
         st.late_seed = plan.sched_seed;
+        st.poll_err_at = plan.poll_err_at.iter().copied().collect();
+        st.poll_err_forever_at = plan.poll_err_forever_at;
+        st.disc_is_nodevice = plan.disc_is_nodevice;
+        st.release_all = false;
         st.protocol_errors.clear();
         st.completions.clear();
     }
+    let freed0 = FREED_WHILE_OUTSTANDING.load(Ordering::SeqCst);
     let mut strm = ctx.strm.take().expect("handle");
     strm.open().expect("open");
     let inner = strm.inner.clone();
@@ -863,7 +1036,8 @@ fn run_session(plan: &Plan, mut ctx: Ctx) -> (Outcome, Option<Ctx>) {
         let s = sched.clone();
         let b = plan.rx.clone();
         let seed = plan.sched_seed;
-        std::thread::spawn(move || rx_thread(s, receiver, b, seed))
+        let foreign = std::mem::take(&mut ctx.foreign);
+        std::thread::spawn(move || rx_thread(s, receiver, b, seed, foreign))
     };
     let ctl_handle = {
         let s = sched.clone();
@@ -916,7 +1090,18 @@ fn run_session(plan: &Plan, mut ctx: Ctx) -> (Outcome, Option<Ctx>) {
                 }
             };
             let dt = t0.elapsed();
-            let lock_free_after = !matches!(inner2.try_lock(), Err(std::sync::TryLockError::WouldBlock));
+            // (the scheduler probes the same lock for an instant to see whether the loop thread is gone:
+            // one busy probe means nothing, the loop thread would hold it for good)
+            // Only close/drop promise that the loop thread is gone; after a plain stop the return is
+            // reported to the scheduler at once, so that what the loop does afterwards is observed.
+            let mut lock_free_after = mode == 0;
+            for _ in 0..(if mode == 0 { 0 } else { 200 }) {
+                if !matches!(inner2.try_lock(), Err(std::sync::TryLockError::WouldBlock)) {
+                    lock_free_after = true;
+                    break;
+                }
+                std::thread::sleep(Duration::from_micros(50));
+            }
             {
                 let mut st = s.m.lock().unwrap();
                 st.ctl_next_at = 0;
@@ -947,8 +1132,10 @@ fn run_session(plan: &Plan, mut ctx: Ctx) -> (Outcome, Option<Ctx>) {
     let mut hang: Option<String> = None;
     let mut loop_poisoned = false;
     let max_events = 30_000usize;
+    let mut kc_at: Option<usize> = None;
+    let session_t0 = Instant::now();
     'sched: loop {
-        let deadline = Instant::now() + WATCHDOG;
+        let deadline = Instant::now() + plan.watchdog;
         let mut st = sched.m.lock().unwrap();
         loop {
             if st.waiting[LOOP] {
@@ -981,8 +1168,8 @@ fn run_session(plan: &Plan, mut ctx: Ctx) -> (Outcome, Option<Ctx>) {
             }
             if Instant::now() > deadline {
                 hang = Some(format!(
-                    "no progress for {WATCHDOG:?}: running={:?} waiting={:?} finished={:?} blocked={:?}",
-                    st.running, st.waiting, st.finished, st.blocked
+                    "no progress for {:?}: running={:?} waiting={:?} finished={:?} blocked={:?}",
+                    plan.watchdog, st.running, st.waiting, st.finished, st.blocked
                 ));
                 st.free_run = true;
                 sched.wake_all();
@@ -992,17 +1179,28 @@ fn run_session(plan: &Plan, mut ctx: Ctx) -> (Outcome, Option<Ctx>) {
             let (g, _) = sched.cv.wait_timeout(st, Duration::from_micros(wait)).unwrap();
             st = g;
         }
-        // a stop/close/drop that does not return although the loop keeps passing its cancellation check
-        if st.blocked[CTL] {
-            if let Some(kc) = st.log.iter().position(|e| e == "KC") {
-                let since = st.loop_events.iter().filter(|i| **i > kc).count();
-                if since > 40 * ((3 + plan.late_cancel as usize) * plan.params.t() + 10) {
-                    hang = Some(format!("stop/close/drop did not return although the loop performed {since} operations after the request"));
-                    st.free_run = true;
-                    sched.wake_all();
-                    break 'sched;
-                }
+        // a loop that keeps running long after the stop/close/drop request — whether the call is still
+        // blocked (it never returns) or has returned already (it did not wait for the loop)
+        if let Some(kc) = kc_at.or_else(|| st.log.iter().position(|e| e == "KC")) {
+            kc_at = Some(kc);
+            let since = st.loop_events.len() - st.loop_events.partition_point(|i| *i <= kc);
+            if since > 40 * ((3 + plan.late_cancel as usize) * plan.params.t() + 10) {
+                hang = Some(if st.blocked[CTL] {
+                    format!("stop/close/drop did not return although the loop performed {since} operations after the request")
+                } else {
+                    format!("the loop is still running {since} operations after the stop/close/drop request (the call returned)")
+                });
+                st.free_run = true;
+                sched.wake_all();
+                break 'sched;
             }
+        }
+        // budgets of one session: it must end whatever the implementation does
+        if events > SESSION_EVENT_BUDGET || session_t0.elapsed() > SESSION_TIME_BUDGET * if plan.watchdog > WATCHDOG { 2 } else { 1 } {
+            hang = Some(format!("session budget exhausted ({events} scheduled events, {:?})", session_t0.elapsed()));
+            st.free_run = true;
+            sched.wake_all();
+            break 'sched;
         }
         // choose who runs next
         let session_done = st.finished[LOOP] && st.finished[CTL];
@@ -1050,7 +1248,13 @@ fn run_session(plan: &Plan, mut ctx: Ctx) -> (Outcome, Option<Ctx>) {
                     // `stop_streaming_loop` is entered outside the turnstile: give the controller time to
                     // park in the rendezvous `send` (the model's `stopBlock` step)
                     let t0 = Instant::now();
-                    while !sched.m.lock().unwrap().blocked[CTL] && t0.elapsed() < WATCHDOG {
+                    // (a stop on a dead loop returns at once: the controller is then already waiting again)
+                    loop {
+                        let st = sched.m.lock().unwrap();
+                        if st.blocked[CTL] || st.waiting[CTL] || st.finished[CTL] || t0.elapsed() > plan.watchdog {
+                            break;
+                        }
+                        drop(st);
                         std::thread::yield_now();
                     }
                     std::thread::sleep(Duration::from_micros(plan.park_us));
@@ -1070,7 +1274,7 @@ fn run_session(plan: &Plan, mut ctx: Ctx) -> (Outcome, Option<Ctx>) {
                             break;
                         }
                         drop(st);
-                        if t0.elapsed() > WATCHDOG {
+                        if t0.elapsed() > plan.watchdog {
                             hang = Some("receiver turn did not finish".into());
                             break 'sched;
                         }
@@ -1087,18 +1291,26 @@ fn run_session(plan: &Plan, mut ctx: Ctx) -> (Outcome, Option<Ctx>) {
         sched.wake_all();
     }
     if hang.is_some() {
-        // threads may be stuck inside the implementation: do not join
-        let st = sched.m.lock().unwrap();
-        let f = fake.st.lock().unwrap();
+        // threads may be stuck inside the implementation: do not join.  (Lock order: a loop thread that
+        // is still running takes the endpoint's lock and then the scheduler's, never both here.)
+        let (completions, consumed, outstanding, protocol_errors) = {
+            let mut f = fake.st.lock().unwrap();
+            f.release_all = true;
+            (f.completions.clone(), f.consumed, f.xfers.len(), f.protocol_errors.clone())
+        };
+        let (log, loop_events) = {
+            let st = sched.m.lock().unwrap();
+            (st.log.clone(), st.loop_events.clone())
+        };
         return (
             Outcome {
-                log: st.log.clone(),
-                loop_events: st.loop_events.clone(),
-                completions: f.completions.clone(),
-                consumed: f.consumed,
+                log,
+                loop_events,
+                completions,
+                consumed,
                 rx: RxReport::default(),
-                outstanding: f.xfers.len(),
-                protocol_errors: f.protocol_errors.clone(),
+                outstanding,
+                protocol_errors,
                 stop_ok: None,
                 stop_dur: Duration::ZERO,
                 running_after: false,
@@ -1107,11 +1319,13 @@ fn run_session(plan: &Plan, mut ctx: Ctx) -> (Outcome, Option<Ctx>) {
                 params_seen,
                 lock_free_after: false,
                 start_again: None,
+                freed_while_outstanding: FREED_WHILE_OUTSTANDING.load(Ordering::SeqCst) - freed0,
+                kept: vec![],
             },
             None,
         );
     }
-    let rx = rx_handle.join().unwrap_or_default();
+    let (rx, kept) = rx_handle.join().unwrap_or_default();
     let (strm, stop_ok, stop_dur, running_after, lock_free_after, start_again) = ctl_handle.join().expect("controller thread");
     cameleon::u3v::verif::set_yield_hook(None);
     let st = sched.m.lock().unwrap();
@@ -1134,6 +1348,8 @@ fn run_session(plan: &Plan, mut ctx: Ctx) -> (Outcome, Option<Ctx>) {
         params_seen,
         lock_free_after,
         start_again,
+        freed_while_outstanding: FREED_WHILE_OUTSTANDING.load(Ordering::SeqCst) - freed0,
+        kept,
     };
     drop(f);
     drop(st);
@@ -1159,6 +1375,11 @@ const LAYOUTS: &[(usize, usize, usize, usize, usize, usize)] = &[
 const FAULTS: &[&str] = &[
     "none", "pending", "status-io", "status-disc", "status-timeout", "short", "empty", "garbage", "overflow",
     "submit-io", "submit-disc", "submit-timeout", "trailer-status", "valid-gt-read", "drop", "dup", "merge", "hole",
+    "poll-err-io", "poll-err-disc",
+    // the same error on several consecutive transfers: 2, 3, all remaining transfers of the frame, and
+    // every transfer from there on (unplugged device: each one completes with NO_DEVICE)
+    "burst2-io", "burst2-disc", "burst2-timeout", "burst3-io", "burst3-disc", "burst3-timeout",
+    "frame-io", "frame-disc", "frame-timeout", "unplug-disc", "unplug-io",
 ];
 
 #[derive(Clone, Debug)]
@@ -1182,6 +1403,8 @@ struct Spec {
     restart: bool,
     /// asynchronous cancellation: completions of cancelled transfers come up to that many polls late
     late_cancel: u64,
+    /// every other frame has an arbitrary payload length 0..=max
+    short_frames: bool,
 }
 
 impl Spec {
@@ -1189,7 +1412,7 @@ impl Spec {
         json!({"layout": self.layout, "cap": self.cap, "nframes": self.nframes, "fault": self.fault, "fframe": self.fframe,
                "fpart": self.fpart, "rx": self.rx, "stop_pm": self.stop_pm, "seed": self.seed.to_string(),
                "extra_faults": self.extra_faults, "kill": self.kill, "ctl_mode": self.ctl_mode,
-               "start_twice": self.start_twice, "restart": self.restart, "late_cancel": self.late_cancel})
+               "start_twice": self.start_twice, "restart": self.restart, "late_cancel": self.late_cancel, "short_frames": self.short_frames})
     }
     fn from_json(v: &Value) -> Spec {
         Spec {
@@ -1208,6 +1431,7 @@ impl Spec {
             start_twice: v["start_twice"].as_bool().unwrap_or(false),
             restart: v["restart"].as_bool().unwrap_or(false),
             late_cancel: v["late_cancel"].as_u64().unwrap_or(0),
+            short_frames: v["short_frames"].as_bool().unwrap_or(false),
         }
     }
 }
@@ -1235,6 +1459,51 @@ fn apply_fault(rng: &mut Rng, p: &Params, plan: &mut Plan, kind: &str, frame: us
         "pending" => {
             if let Some(pos) = pos {
                 plan.pend_at.push(pos);
+            }
+        }
+        k if k.starts_with("burst") || k.starts_with("frame-") || k.starts_with("unplug-") => {
+            if let Some(pos) = pos {
+                let cls = if k.ends_with("-io") {
+                    Cls::Io
+                } else if k.ends_with("-disc") {
+                    Cls::Disc
+                } else {
+                    Cls::Timeout
+                };
+                let n = if k.starts_with("burst2") {
+                    2
+                } else if k.starts_with("burst3") {
+                    3
+                } else if k.starts_with("frame-") {
+                    t - part
+                } else {
+                    plan.script.len() - pos
+                };
+                for q in pos..(pos + n).min(plan.script.len()) {
+                    plan.script[q] = Item::Fault(cls);
+                    spoil(plan, q);
+                }
+                if k.starts_with("unplug-") {
+                    // the device never comes back: every later transfer fails the same way
+                    for _ in 0..40 * t {
+                        plan.script.push(Item::Fault(cls));
+                        plan.tags.push(None);
+                    }
+                }
+                if cls == Cls::Disc {
+                    plan.disc_is_nodevice = true;
+                }
+                plan.conforming = false;
+            }
+        }
+        "poll-err-io" | "poll-err-disc" => {
+            if let Some(pos) = pos {
+                plan.poll_err_at.push((pos, if kind == "poll-err-io" { Cls::Io } else { Cls::Disc }));
+            }
+        }
+        "poll-err-forever" => {
+            if let Some(pos) = pos {
+                plan.poll_err_forever_at = Some((pos, Cls::Disc));
             }
         }
         "status-io" | "status-disc" | "status-timeout" => {
@@ -1383,7 +1652,15 @@ fn gen_plan(spec: &Spec) -> Plan {
     let mut script = vec![];
     let mut tags = vec![];
     for f in 0..spec.nframes {
-        let n = if t == 2 { 0 } else { max - last + 1 + rng.below(last as u64) as usize };
+        // conforming frames: usually reaching into the last payload transfer; with `short_frames` every
+        // other frame has ANY length 0..=max (a short transfer followed by empty transfers)
+        let n = if t == 2 {
+            0
+        } else if spec.short_frames && f % 2 == 1 {
+            rng.below(max as u64 + 1) as usize
+        } else {
+            max - last + 1 + rng.below(last as u64) as usize
+        };
         let bid = 1000 + 7 * f as u64 + rng.below(5);
         let fr = mk_frame(&mut rng, bid, n);
         for (i, pk) in frame_packets(&params, &fr).into_iter().enumerate() {
@@ -1412,6 +1689,10 @@ fn gen_plan(spec: &Spec) -> Plan {
         ctl_mode: spec.ctl_mode % 3,
         start_again_at: None,
         late_cancel: spec.late_cancel,
+        watchdog: WATCHDOG,
+        poll_err_at: vec![],
+        poll_err_forever_at: None,
+        disc_is_nodevice: false,
     };
 
     if spec.nframes > 0 {
@@ -1444,7 +1725,18 @@ fn oracle(plan: &Plan, out: &Outcome) -> Verdict {
     let mut v: Vec<(Value, String)> = vec![];
     let t = plan.params.t();
     if let Some(h) = &out.hang {
-        v.push((json!({"kind": "hang"}), format!("a thread made no progress: {h}")));
+        let cause = if plan.poll_err_forever_at.is_some() {
+            "persistent-event-loop-error"
+        } else if h.starts_with("stop/close/drop did not return") {
+            "stop-does-not-return"
+        } else if h.starts_with("the loop is still running") {
+            "loop-runs-on-after-stop"
+        } else if h.starts_with("session budget exhausted") {
+            "session-budget-exhausted"
+        } else {
+            "no-progress(wall-clock)"
+        };
+        v.push((json!({"kind": "hang", "cause": cause}), format!("a thread made no progress: {h}")));
         return Verdict { violations: v, delivered: 0, produced: 0, dropped_full_or_closed: 0 };
     }
     if out.params_seen != Some(plan.params) {
@@ -1452,6 +1744,10 @@ fn oracle(plan: &Plan, out: &Outcome) -> Verdict {
     }
     for e in &out.protocol_errors {
         v.push((json!({"kind": "pool-protocol"}), e.clone()));
+    }
+    if out.freed_while_outstanding > 0 {
+        v.push((json!({"kind": "pool-protocol", "what": "buffer-freed-while-transfer-outstanding"}),
+            format!("{} deallocation(s) hit the buffer of a transfer that was still outstanding (not yet cancelled AND reaped): with libusb the USB stack writes into freed memory", out.freed_while_outstanding)));
     }
     for e in &out.rx.problems {
         v.push((json!({"kind": "payload-mutated-or-aliased"}), e.clone()));
@@ -1608,9 +1904,6 @@ fn oracle(plan: &Plan, out: &Outcome) -> Verdict {
             if out.running_after {
                 v.push((json!({"kind": "flag-not-cleared", "call": what}), format!("is_loop_running() is still true after {what} returned")));
             }
-            if out.stop_dur > Duration::from_secs(2) {
-                v.push((json!({"kind": "stop-slow", "call": what}), format!("{what} took {:?}", out.stop_dur)));
-            }
             let loop_after_kc = out.loop_events.iter().filter(|i| **i > kc).count();
             let bound = 3 * t + 12 + plan.late_cancel as usize * t;
             if loop_after_kc > bound {
@@ -1684,6 +1977,17 @@ fn run_spec(rep: &mut Report, tot: &mut Totals, queue: &mut Vec<(String, Spec)>,
         rep.count("skipped-after-two-hung-sessions");
         return;
     }
+    if let Some((t0, budget)) = RUN_T0.get() {
+        if t0.elapsed() > *budget {
+            if !RUN_BUDGET_HIT.swap(true, std::sync::atomic::Ordering::SeqCst) {
+                rep.violation(json!({"kind": "run-budget-exhausted"}),
+                    &format!("the run used up its wall-clock budget of {budget:?}: the remaining sessions were not run (results so far are reported)"),
+                    spec.to_json());
+            }
+            rep.count("skipped-run-budget-exhausted");
+            return;
+        }
+    }
     let mut plan = gen_plan(spec);
     let t0 = Instant::now();
     let (mut out, mut ctx) = run_session(&plan, new_ctx());
@@ -1698,11 +2002,25 @@ fn run_spec(rep: &mut Report, tot: &mut Totals, queue: &mut Vec<(String, Spec)>,
             ctx = r.1;
         }
     }
+    // a verdict that rests on wall-clock patience is re-checked once with ten times more of it
+    if out.hang.as_ref().map_or(false, |h| h.starts_with("no progress for") || h.starts_with("receiver turn")) {
+        rep.count("wall-clock-verdict-rechecked(watchdog x10)");
+        plan.watchdog = WATCHDOG * 10;
+        let r = run_session(&plan, new_ctx());
+        out = r.0;
+        ctx = r.1;
+    }
+    if out.stop_dur > Duration::from_secs(2) {
+        rep.count("stop/close/drop took more than 2 s of wall-clock (not a verdict)");
+    }
     if t0.elapsed() > Duration::from_millis(500) {
         rep.count("slow-session(>0.5s)");
         if std::env::var("C12_DEBUG").is_ok() {
             eprintln!("slow session {:?}: {:?} events={}", t0.elapsed(), spec, out.log.len());
         }
+    }
+    if std::env::var("C12_TRACE").is_ok() {
+        eprintln!("TRACE {}", out.log.join(" "));
     }
     rep.count(["ctl/stop", "ctl/close", "ctl/drop"][plan.ctl_mode as usize % 3]);
     if plan.start_again_at.is_some() {
@@ -1710,7 +2028,12 @@ fn run_spec(rep: &mut Report, tot: &mut Totals, queue: &mut Vec<(String, Spec)>,
     }
     // restart: a second session (other layout, other way of ending it) on the SAME handle
     if spec.restart && out.hang.is_none() {
-        if let Some(c) = ctx.take() {
+        if let Some(mut c) = ctx.take() {
+            let full = plan.params.max_payload();
+            c.foreign = std::mem::take(&mut out.kept).into_iter().map(|p| (p, full)).collect();
+            if !c.foreign.is_empty() {
+                rep.count("second-session:with-foreign-payloads-to-send-back");
+            }
             let mut spec2 = spec.clone();
             spec2.restart = false;
             spec2.layout = spec.layout + 1;
@@ -1840,8 +2163,11 @@ fn main() {
     }
 
     let thorough = args.thorough();
+    let _ = RUN_T0.set((Instant::now(), if thorough { RUN_BUDGET_THOROUGH } else { RUN_BUDGET_QUICK }));
     // (1) every single fault at every transfer index x receiver behaviour x capacity x stop time
-    let layouts: Vec<usize> = if thorough { (0..LAYOUTS.len()).collect() } else { vec![0, 2] };
+    // quick: final1 != 0 && final2 == 0 (0), final1 == 0 && final2 != 0 (2), both 0 (4); thorough adds both != 0
+    // (3, 6), no payload transfer at all (1) and count == 0 (5)
+    let layouts: Vec<usize> = if thorough { (0..LAYOUTS.len()).collect() } else { vec![0, 2, 4] };
     let mut grid = 0u64;
     for &layout in &layouts {
         let (ls, ts, ps, pc, f1, f2) = LAYOUTS[layout];
@@ -1884,6 +2210,7 @@ fn main() {
                         start_twice: grid % 5 == 0,
                         restart: grid % 4 == 0,
                         late_cancel: grid % 3,
+                        short_frames: grid % 2 == 0,
                     };
                     run_spec(&mut rep, &mut tot, &mut queue, &spec, "grid");
                 }
@@ -1911,6 +2238,7 @@ fn main() {
             start_twice: rng.chance(1, 4),
             restart: rng.chance(1, 3),
             late_cancel: rng.below(4),
+            short_frames: rng.bool(),
         };
         run_spec(&mut rep, &mut tot, &mut queue, &spec, "clean");
         if i % 100 == 99 {
@@ -1937,10 +2265,41 @@ fn main() {
             start_twice: rng.chance(1, 4),
             restart: rng.chance(1, 3),
             late_cancel: rng.below(4),
+            short_frames: rng.bool(),
         };
         run_spec(&mut rep, &mut tot, &mut queue, &spec, "random");
         if i % 200 == 199 {
             flush(&mut rep, &mut tot, &mut queue, &args.camdrv);
+        }
+    }
+    // (3b) KNOWN FINDING: the event loop fails on every poll from some transfer on; `AsyncPool::drop`
+    // (`while !is_empty() { poll().ok() }`) then spins forever and stop never returns.
+    // These sessions always run; the orchestrator matches the violation against known_findings.json.
+    {
+        for k in 0..(if thorough { 4 } else { 1 }) {
+            let spec = Spec {
+                layout: [0usize, 2, 4, 3][k % 4],
+                cap: 2,
+                nframes: 4,
+                fault: "poll-err-forever".into(),
+                fframe: 1,
+                fpart: k % 3,
+                // (a receiver that is never scheduled: the loop reaches the failing transfer before the stop)
+                rx: 4,
+                stop_pm: 1400,
+                seed: args.seed.wrapping_add(k as u64),
+                extra_faults: 0,
+                kill: None,
+                ctl_mode: (k % 3) as u8,
+                start_twice: false,
+                restart: false,
+                late_cancel: 0,
+                short_frames: false,
+            };
+            // does not count against the limit of hung sessions
+            let before = HANGS.load(std::sync::atomic::Ordering::SeqCst);
+            run_spec(&mut rep, &mut tot, &mut queue, &spec, "persistent-event-loop-error");
+            HANGS.store(before, std::sync::atomic::Ordering::SeqCst);
         }
     }
     // (4) the loop thread dies (injected panic at a yield point): stop must return an error, flag cleared
@@ -1962,6 +2321,7 @@ fn main() {
             start_twice: false,
             restart: false,
             late_cancel: rng.below(3),
+            short_frames: false,
         };
         run_spec(&mut rep, &mut tot, &mut queue, &spec, "thread-death");
     }
